@@ -322,6 +322,12 @@ class Model:
                 v = self.ev(n["args"][0], env)
                 if isinstance(v, tuple) and v[0] in ("list", "vec"):
                     return ("enumerate", v[1])
+            if fn.endswith(("PartialEq::eq", "PartialEq::ne")) and len(n["args"]) == 2:
+                # a derived `==` on the plain values of the model (SolverResult, flags, numbers)
+                a, b = self.ev(n["args"][0], env), self.ev(n["args"][1], env)
+                if isinstance(a, (Opaque, Child)) or isinstance(b, (Opaque, Child)):
+                    raise Unrecognised("comparison with an untracked value: " + show(n))
+                return (a == b) if fn.endswith("eq") else (a != b)
             # plain iterator adaptors over model lists
             def _lst(v_):
                 return list(v_[1]) if isinstance(v_, tuple) and v_ and v_[0] in ("list", "vec") else None
